@@ -1,106 +1,146 @@
-"""Generated/FEConsts.v: constants of the FusionEngine wire format shared by C04-C09, C14, C18:
-CRC polynomial / xor-in-out (crc.cc), sync bytes, header format and size, size sanity limits
-(messages/defs.py, messages/defs.h), indexer block constants (parsers/fast_indexer.py).  Fail closed."""
-import ast, os, re, struct, sys
+"""Generated/FEConsts.v: constants of the FusionEngine wire format shared by C04-C09, C14, C18.
+
+The constants are taken from the working tree by *evaluating* it rather than by matching its text, so that a
+harmless rewrite (a constant spelled differently, moved, renamed locals) does not break the tie:
+  * Python: the package is imported in a subprocess (vf.IMPL_ENV) and the class / module attributes are read;
+  * C++ public constants (MessageHeader::SYNC0/SYNC1/MAX_MESSAGE_SIZE_BYTES): a generated program is compiled
+    against the headers and prints them;
+  * the CRC polynomial and xor-in/out value, which crc.cc keeps private, are derived from the behaviour of
+    CalculateCRC() itself: poly = CRC([0x80]) xor CRC([0x00]) (the table is GF(2)-linear), the xor value is the
+    candidate for which the reflected table-driven algorithm reproduces CalculateCRC() on probe buffers with
+    several initial values; if no candidate does, the translator fails closed.
+The header format string must be the layout Base/FEFormat.v transcribes, else fail closed."""
+import hashlib, json, os, random, subprocess, sys
 sys.path.insert(0, os.path.join(os.path.dirname(__file__), '..', 'lib'))
 import vf
 
 EXPECTED_FORMAT = '<BBHIBBHIII'   # the layout Base/FEFormat.v transcribes
 
+PY_PROBE = r'''
+import json, sys
+from fusion_engine_client.messages.defs import MessageHeader
+from fusion_engine_client.parsers import fast_indexer
+def g(o, *names):
+    for n in names:
+        if hasattr(o, n): return getattr(o, n)
+    raise SystemExit('gen_fe: none of %r found on %r' % (names, o))
+print(json.dumps({
+ 'SYNC0': int(MessageHeader.SYNC0), 'SYNC1': int(MessageHeader.SYNC1),
+ 'FORMAT': g(MessageHeader, '_FORMAT', 'FORMAT'), 'SIZE': int(MessageHeader.calcsize()),
+ 'MAX_EXPECTED_SIZE_BYTES': int(g(MessageHeader, '_MAX_EXPECTED_SIZE_BYTES', 'MAX_EXPECTED_SIZE_BYTES')),
+ 'READ_SIZE_BYTES': int(g(fast_indexer, '_READ_SIZE_BYTES', 'READ_SIZE_BYTES')),
+ 'MAX_FE_MSG_SIZE_BYTES': int(g(fast_indexer, '_MAX_FE_MSG_SIZE_BYTES', 'MAX_FE_MSG_SIZE_BYTES')),
+}))
+'''
 
-def _eval(node, env):
-    """tiny constant-expression evaluator (ints, names already bound, + - * // << | , struct.calcsize)"""
-    if isinstance(node, ast.Constant):
-        return node.value
-    if isinstance(node, ast.Name):
-        return env[node.id]
-    if isinstance(node, ast.Attribute) and isinstance(node.value, ast.Name):
-        return env[node.attr]
-    if isinstance(node, ast.BinOp):
-        a, b = _eval(node.left, env), _eval(node.right, env)
-        ops = {ast.Add: lambda: a + b, ast.Sub: lambda: a - b, ast.Mult: lambda: a * b, ast.FloorDiv: lambda: a // b,
-               ast.LShift: lambda: a << b, ast.BitOr: lambda: a | b, ast.Pow: lambda: a ** b}
-        return ops[type(node.op)]()
-    if isinstance(node, ast.Tuple):
-        return tuple(_eval(e, env) for e in node.elts)
-    if isinstance(node, ast.Call) and isinstance(node.func, ast.Attribute) and node.func.attr == 'calcsize':
-        return struct.calcsize(_eval(node.args[0], env))
-    if isinstance(node, ast.Call) and isinstance(node.func, ast.Name) and node.func.id == 'bytes':
-        return bytes(_eval(node.args[0], env))
-    raise ValueError('gen_fe: cannot evaluate %s' % ast.dump(node))
-
-
-def class_consts(path, cls, names):
-    tree = ast.parse(vf.repo_file(path))
-    for n in ast.walk(tree):
-        if isinstance(n, ast.ClassDef) and n.name == cls:
-            env = {}
-            for st in n.body:
-                tgt = None
-                if isinstance(st, ast.Assign) and len(st.targets) == 1 and isinstance(st.targets[0], ast.Name):
-                    tgt, val = st.targets[0].id, st.value
-                elif isinstance(st, ast.AnnAssign) and isinstance(st.target, ast.Name) and st.value is not None:
-                    tgt, val = st.target.id, st.value
-                if tgt:
-                    try:
-                        env[tgt] = _eval(val, env)
-                    except Exception:
-                        pass
-            missing = [k for k in names if k not in env]
-            if missing:
-                raise RuntimeError('gen_fe: %s.%s: cannot determine %r' % (path, cls, missing))
-            return {k: env[k] for k in names}
-    raise RuntimeError('gen_fe: class %s not found in %s' % (cls, path))
-
-
-def module_consts(path, names):
-    tree = ast.parse(vf.repo_file(path))
-    env = {}
-    for st in tree.body:
-        if isinstance(st, ast.Assign) and len(st.targets) == 1 and isinstance(st.targets[0], ast.Name):
-            try:
-                env[st.targets[0].id] = _eval(st.value, env)
-            except Exception:
-                pass
-    missing = [k for k in names if k not in env]
-    if missing:
-        raise RuntimeError('gen_fe: %s: cannot determine %r' % (path, missing))
-    return {k: env[k] for k in names}
+CPP_PROBE = r'''
+#include <cstdio>
+#include <cstdint>
+#include <cstdlib>
+#include <cstring>
+#include <string>
+#include <iostream>
+#include "point_one/fusion_engine/messages/crc.h"
+#include "point_one/fusion_engine/messages/defs.h"
+using namespace point_one::fusion_engine::messages;
+int main() {
+  printf("C %u %u %llu %zu\n", (unsigned)MessageHeader::SYNC0, (unsigned)MessageHeader::SYNC1,
+         (unsigned long long)MessageHeader::MAX_MESSAGE_SIZE_BYTES, sizeof(MessageHeader));
+  std::string line;
+  while (std::getline(std::cin, line)) {          // "<init> <hex>" -> CalculateCRC(buf, len, init)
+    size_t sp = line.find(' ');
+    uint32_t init = (uint32_t)strtoul(line.substr(0, sp).c_str(), nullptr, 10);
+    std::string h = line.substr(sp + 1);
+    if (h == "-") h = "";
+    std::string b;
+    for (size_t i = 0; i + 1 < h.size(); i += 2) b.push_back((char)strtol(h.substr(i, 2).c_str(), nullptr, 16));
+    printf("%u\n", (unsigned)CalculateCRC(b.data(), b.size(), init));
+  }
+  return 0;
+}
+'''
 
 
-def cint(s):
-    return int(s.strip().rstrip('uUlL'), 0)
+def crc_ref(poly, x, data, init):
+    """reflected table-driven CRC as Base/Crc32.v models it"""
+    c = init ^ x
+    for b in data:
+        c ^= b
+        for _ in range(8):
+            c = (poly ^ (c >> 1)) if (c & 1) else (c >> 1)
+    return c ^ x
+
+
+def _hash_files(paths):
+    h = hashlib.sha1()
+    for p in paths:
+        h.update(open(p, 'rb').read())
+    return h.hexdigest()[:16]
+
+
+def cpp_constants():
+    src = [os.path.join(vf.REPO, 'src/point_one/fusion_engine/messages', f) for f in ('crc.cc', 'crc.h', 'defs.h')]
+    src.append(os.path.join(vf.REPO, 'src/point_one/fusion_engine/common/portability.h'))
+    d = os.path.join(vf.BUILD, 'gen_fe')
+    os.makedirs(d, exist_ok=True)
+    key = _hash_files(src + [__file__])
+    cache = os.path.join(d, 'cpp_%s.json' % key)
+    if os.path.exists(cache):
+        return json.load(open(cache))
+    cc = os.path.join(d, 'probe_%s.cc' % key)
+    exe = os.path.join(d, 'probe_%s' % key)
+    open(cc, 'w').write(CPP_PROBE)
+    rc, so, se = vf.sh('clang++-14 -std=c++14 -O1 -I%s/src %s %s -o %s' % (vf.REPO, cc, src[0], exe), timeout=300)
+    if rc != 0:
+        raise RuntimeError('gen_fe: C++ probe does not compile: ' + se[-1500:])
+    rng = random.Random(12345)
+    probes = [(0, b'\x80'), (0, b'\x00'), (0, b'')]
+    for _ in range(120):
+        probes.append((rng.choice([0, 1, 0xFFFFFFFF, rng.getrandbits(32)]), bytes(rng.getrandbits(8) for _ in range(rng.choice([0, 1, 2, 3, 7, 16, 33])))))
+    rc, so, se = vf.sh([exe], input=''.join('%d %s\n' % (i, b.hex() or '-') for i, b in probes), timeout=120)
+    lines = so.split('\n')
+    if rc != 0 or not lines[0].startswith('C '):
+        raise RuntimeError('gen_fe: C++ probe failed: ' + (so + se)[-500:])
+    _, s0, s1, mx, hs = lines[0].split()
+    outs = [int(x) for x in lines[1:1 + len(probes)]]
+    poly = outs[0] ^ outs[1]
+    xs = [x for x in (0xFFFFFFFF, 0, outs[2]) if all(crc_ref(poly, x, b, i) == o for (i, b), o in zip(probes, outs))]
+    if not xs:
+        raise RuntimeError('gen_fe: CalculateCRC() is not a reflected CRC-32 with equal xor-in/xor-out for polynomial 0x%08x '
+                           '(the model in Base/Crc32.v does not apply)' % poly)
+    res = {'crc_poly': poly, 'crc_xor': xs[0], 'CPP_SYNC0': int(s0), 'CPP_SYNC1': int(s1),
+           'CPP_MAX_MESSAGE_SIZE_BYTES': int(mx), 'CPP_HEADER_SIZE': int(hs)}
+    json.dump(res, open(cache, 'w'))
+    for f in (cc, exe):
+        try: os.remove(f)
+        except OSError: pass
+    return res
+
+
+def py_constants():
+    rc, so, se = vf.sh([vf.PY, '-c', PY_PROBE], env=vf.IMPL_ENV, timeout=120)
+    if rc != 0:
+        raise RuntimeError('gen_fe: cannot read the Python constants: ' + (so + se)[-800:])
+    return json.loads(so.strip().split('\n')[-1])
 
 
 def generate():
-    py = class_consts('python/fusion_engine_client/messages/defs.py', 'MessageHeader',
-                      ['SYNC0', 'SYNC1', '_FORMAT', '_SIZE', '_MAX_EXPECTED_SIZE_BYTES'])
-    if py['_FORMAT'] != EXPECTED_FORMAT or py['_SIZE'] != 24:
-        raise RuntimeError('gen_fe: header format %r/%r is not the layout the model transcribes (%s)' % (py['_FORMAT'], py['_SIZE'], EXPECTED_FORMAT))
-    crc = vf.repo_file('src/point_one/fusion_engine/messages/crc.cc')
-    m = re.search(r'polynomial\s*=\s*(0[xX][0-9a-fA-F]+|\d+)', crc)
-    x = re.findall(r'\^\s*(0[xX][0-9a-fA-F]+)\s*;', crc)
-    if not m or len(x) != 2 or len(set(x)) != 1:
-        raise RuntimeError('gen_fe: crc.cc polynomial / xor constants not recognised (%r, %r)' % (m and m.group(1), x))
-    dh = vf.repo_file('src/point_one/fusion_engine/messages/defs.h')
-    s0 = re.search(r'SYNC0\s*=\s*(0[xX][0-9a-fA-F]+|\d+)', dh)
-    s1 = re.search(r'SYNC1\s*=\s*(0[xX][0-9a-fA-F]+|\d+)', dh)
-    mx = re.search(r'MAX_MESSAGE_SIZE_BYTES\s*=\s*\(?\s*1\s*<<\s*(\d+)\s*\)?', dh)
-    if not (s0 and s1 and mx):
-        raise RuntimeError('gen_fe: defs.h SYNC0/SYNC1/MAX_MESSAGE_SIZE_BYTES not recognised')
-    fi = module_consts('python/fusion_engine_client/parsers/fast_indexer.py', ['_READ_SIZE_BYTES', '_MAX_FE_MSG_SIZE_BYTES'])
+    py = py_constants()
+    if py['FORMAT'] != EXPECTED_FORMAT or py['SIZE'] != 24:
+        raise RuntimeError('gen_fe: header format %r/%r is not the layout the model transcribes (%s)' % (py['FORMAT'], py['SIZE'], EXPECTED_FORMAT))
+    cpp = cpp_constants()
     vals = {
-        'crc_poly': cint(m.group(1)), 'crc_xor': cint(x[0]),
-        'SYNC0': py['SYNC0'], 'SYNC1': py['SYNC1'], 'MAX_EXPECTED_SIZE_BYTES': py['_MAX_EXPECTED_SIZE_BYTES'],
-        'CPP_SYNC0': cint(s0.group(1)), 'CPP_SYNC1': cint(s1.group(1)), 'CPP_MAX_MESSAGE_SIZE_BYTES': 1 << int(mx.group(1)),
-        'READ_SIZE_BYTES': fi['_READ_SIZE_BYTES'], 'MAX_FE_MSG_SIZE_BYTES': fi['_MAX_FE_MSG_SIZE_BYTES'],
+        'crc_poly': cpp['crc_poly'], 'crc_xor': cpp['crc_xor'],
+        'SYNC0': py['SYNC0'], 'SYNC1': py['SYNC1'], 'MAX_EXPECTED_SIZE_BYTES': py['MAX_EXPECTED_SIZE_BYTES'],
+        'CPP_SYNC0': cpp['CPP_SYNC0'], 'CPP_SYNC1': cpp['CPP_SYNC1'], 'CPP_MAX_MESSAGE_SIZE_BYTES': cpp['CPP_MAX_MESSAGE_SIZE_BYTES'],
+        'READ_SIZE_BYTES': py['READ_SIZE_BYTES'], 'MAX_FE_MSG_SIZE_BYTES': py['MAX_FE_MSG_SIZE_BYTES'],
     }
-    t = vf.gen_header(['python/fusion_engine_client/messages/defs.py', 'src/point_one/fusion_engine/messages/crc.cc',
-                       'src/point_one/fusion_engine/messages/defs.h', 'python/fusion_engine_client/parsers/fast_indexer.py'])
+    t = vf.gen_header(['python/fusion_engine_client/messages/defs.py (imported)', 'python/fusion_engine_client/parsers/fast_indexer.py (imported)',
+                       'src/point_one/fusion_engine/messages/defs.h (compiled)', 'src/point_one/fusion_engine/messages/crc.cc (compiled, probed)'])
     t += 'From Coq Require Import NArith.\nOpen Scope N_scope.\n'
     for k, v in vals.items():
         t += 'Definition %s : N := %d.\n' % (k, v)
-    t += 'Definition HEADER_SIZE : nat := %d.\n' % py['_SIZE']
+    t += 'Definition HEADER_SIZE : nat := %d.\n' % py['SIZE']
     vf.write_if_changed(os.path.join(vf.THEORIES, 'Generated', 'FEConsts.v'), t)
     return vals
 
